@@ -64,10 +64,15 @@ where
     pub fn push_and_normalize(&mut self, newc: Rc<dyn Constraint<U, E>>) {
         if let Some(tree_newc) = newc.downcast_ref::<DisequalityConstraint<U, E>>() {
             let mut normalized = HashSet::new();
+            let mut newc_is_redundant = false;
             for storec in self.0.drain() {
                 // All non-subsumable constraints are always carried along
                 if let Some(tree_storec) = storec.downcast_ref::<DisequalityConstraint<U, E>>() {
-                    if !tree_storec.subsumes(tree_newc) && !tree_newc.subsumes(tree_storec) {
+                    if tree_storec.subsumes(tree_newc) {
+                        // The stored constraint already implies the new one: keep the stronger.
+                        newc_is_redundant = true;
+                        normalized.insert(storec);
+                    } else if !tree_newc.subsumes(tree_storec) {
                         normalized.insert(storec);
                     }
                 } else {
@@ -75,6 +80,9 @@ where
                 }
             }
             self.0 = normalized;
+            if newc_is_redundant {
+                return;
+            }
         }
         self.insert(newc);
     }
